@@ -465,7 +465,7 @@ class Stats:
             self.samples += o.samples[: 3 - len(self.samples)]
 
 
-def explore(factory, bound, start=((), ()), budget=None, stats=None):
+def explore(factory, bound, start=((), ()), budget=None, stats=None, on_exec=None):
     """Explore every execution extending `start` = (prefix, labels) with <= bound
     deviations.  Returns (stats, leftover work items) — leftover is non-empty only
     when `budget` executions were used up."""
@@ -476,7 +476,13 @@ def explore(factory, bound, start=((), ()), budget=None, stats=None):
         if budget is not None and n >= budget:
             return st, stack
         prefix, labels = stack.pop()
-        x = Exec(factory, prefix, labels).run()
+        try:
+            x = Exec(factory, prefix, labels).run()
+        except HarnessError as e:
+            e.victim = (prefix, labels)
+            raise
+        if on_exec is not None:
+            on_exec([p[1] for p in x.points])
         n += 1
         st.executions += 1
         st.transitions += len(x.points) - len(prefix)
